@@ -81,7 +81,7 @@ Qed.
 
 (* every constructor hands its `symmetry` argument to get_class_symmetry unchanged
    (from_dense used to call it without the argument), `charge=None` means the identity in the
-   three classmethods and "inferred from the first sector" in __init__, and the classmethods hand
+   three classmethods and "inferred from the first sector, signed by the index directions" in __init__, and the classmethods hand
    charge and symmetry on to cls(...) *)
 Definition kw_passes (k : string) (kws : list (string * string)) : bool :=
   existsb (fun p => String.eqb (fst p) k && String.eqb (snd p) k) kws.
@@ -89,7 +89,7 @@ Definition kw_passes (k : string) (kws : list (string * string)) : bool :=
 Theorem ctor_passes_symmetry_and_charge :
   symmetry_calls = [("AbelianArray.__init__", SCPass); ("AbelianArray.from_fill_fn", SCPass);
                     ("AbelianArray.from_blocks", SCPass); ("AbelianArray.from_dense", SCPass)]
-  /\ charge_defaults = [("AbelianArray.__init__", CDFirstSectorUnsigned); ("AbelianArray.from_fill_fn", CDIdentity);
+  /\ charge_defaults = [("AbelianArray.__init__", CDFirstSectorSigned); ("AbelianArray.from_fill_fn", CDIdentity);
                         ("AbelianArray.from_blocks", CDIdentity); ("AbelianArray.from_dense", CDIdentity);
                         ("FermionicArray.__init__", CDForwarded); ("AbelianArray.random", CDForwarded)]
   /\ map fst cls_calls = ["AbelianArray.from_fill_fn"; "AbelianArray.from_blocks"; "AbelianArray.from_dense";
